@@ -74,10 +74,10 @@ def trace_validation(ctx):
     info = json.loads(out.strip().splitlines()[-1])
     r = vf.tlc(ctx, "TraceStream", "trace/TraceStream.cfg", name="tracestream", workers=1,
                files={tfile: "trace.ndjson"}, timeout=3000)
-    m = re.search(r'<<"REJECTED", \{([^}]*)\}>>', r["out"])
+    m = re.search(r'<<\s*"REJECTED",\s*\{([^}]*)\}\s*>>', r["out"], re.S)
     if not m or r["rc"] != 0:
         raise vf.Inconclusive("trace validation did not complete:\n" + r["out"][-2000:])
-    rejected = set(int(x) for x in m.group(1).replace(" ", "").split(",") if x)
+    rejected = set(int(x) for x in re.findall(r"\d+", m.group(1)))
     # map ids to traces
     begins = {}
     cur = None
